@@ -30,6 +30,9 @@ REGRESS_DIR = os.path.join(REPLAY_DIR, "regress")
 SCRATCH = os.path.join(ROOT, ".scratch")
 
 
+COLLECT = bool(os.environ.get("VERIF_COLLECT"))
+
+
 class StopSearch(KeyboardInterrupt):
     """Leaves Hypothesis without being recorded as a test failure."""
 
@@ -82,6 +85,7 @@ class Ctx(object):
         self.stopped_by_budget = False
         self.shrink_cap = 60.0 if tier == "quick" else 240.0
         self.extra = {}
+        self.collected = {}
 
     # -- evaluation of one generated case ------------------------------------
     def evaluate(self, case, label=None, in_hypothesis=True):
@@ -138,6 +142,17 @@ class Ctx(object):
                     self.excluded_known[kf] += 1
                     continue
                 sig = (viol["kind"], viol["sub"])
+                if COLLECT:
+                    # triage aid (VERIF_COLLECT=1): never stop, keep the smallest sample per signature
+                    key = "%s/%s" % sig
+                    size = len(canon(case))
+                    cur = self.collected.get(key)
+                    if cur is None or size < cur["size"]:
+                        self.collected[key] = {"size": size, "version": v, "case": case, "detail": viol.get("detail", "")[:600],
+                                               "count": (cur or {}).get("count", 0) + 1}
+                    else:
+                        cur["count"] += 1
+                    continue
                 rec = {"property": self.pid, "op": getattr(self.check, "OP", None), "version": v, "case": case,
                        "violation": viol, "signature": list(sig)}
                 if self.target is None:
@@ -214,6 +229,7 @@ class Ctx(object):
             "missing_interpreters": self.pool.missing,
             "interpreters": {v: self.pool.paths[v] for v in self.pool.workers},
             "extra": self.extra,
+            "collected": self.collected,
             "wall_s": time.monotonic() - self.t0,
         }
 
@@ -436,6 +452,20 @@ def finish(check, pid, tier, seed, shards, errors, wall):
                     d[kk] = d.get(kk, 0) + vv if isinstance(vv, (int, float)) else vv
             else:
                 extra[k] = val
+    if COLLECT:
+        coll = {}
+        for s in shards:
+            for k, c in (s.get("collected") or {}).items():
+                if k not in coll or c["size"] < coll[k]["size"]:
+                    c["count"] = c.get("count", 0) + (coll[k]["count"] if k in coll else 0)
+                    coll[k] = c
+                else:
+                    coll[k]["count"] += c.get("count", 0)
+        os.makedirs(REPLAY_DIR, exist_ok=True)
+        with open(os.path.join(REPLAY_DIR, "%s-collected.json" % pid), "w") as f:
+            json.dump(coll, f, indent=1, sort_keys=True)
+        for k, c in sorted(coll.items()):
+            print("COLLECTED %s x%d on %s: %s" % (k, c["count"], c["version"], c["detail"][:500]))
     samples.sort(key=lambda x: x[0])
     seen = set()
     outs = []
